@@ -202,10 +202,6 @@ theorem createTypeFromCtypeString_fields (ctype : Str) (isConst isReturn : Bool)
 def spelled (t : CType) (isParameter : Bool) : Str :=
   baseSpelling (baseOf t) ++ ((levels t isParameter).map levelSpelling).flatten
 
-/-- the base of the type is not a const/volatile-qualified `void` -/
-def NoQualifiedVoid (t : CType) : Prop :=
-  ∀ q, baseOf t = .void q → q = Qual.plain
-
 theorem baseOf_not_ptr_array (t : CType) : (∀ q u, baseOf t ≠ .ptr q u) ∧ (∀ q u n, baseOf t ≠ .array q u n) := by
   induction t with
   | ptr q t ih => simpa [baseOf] using ih
@@ -225,14 +221,15 @@ theorem base_step (n sc sv : Str) (c v : Bool) :
     (if v then sv else []) ++ (if c then sc else []) ++ n := by
   cases c <;> cases v <;> simp only [List.nil_append, List.append_assoc, if_true, if_false, Bool.false_eq_true]
 
-theorem complete_eq_spelled (t : CType) (p : Bool) (h : NoQualifiedVoid t) :
+/-- for EVERY type tree, `_create_complete_source_type` writes the documented spelling (since /repo
+    1f72dc6 a qualified `void` keeps its qualifiers like every other named base type) -/
+theorem complete_eq_spelled (t : CType) (p : Bool) :
     createCompleteSourceType t p = spelled t p := by
   induction t generalizing p with
   | void q =>
-    have := h q rfl
-    subst this
-    simp only [createCompleteSourceType, spelled, baseOf, baseSpelling, levels, Qual.plain, List.map_nil,
-      List.flatten_nil, List.append_nil, if_false, Bool.false_eq_true, List.nil_append]
+    simp only [createCompleteSourceType, spelled, baseOf, baseSpelling, levels, List.map_nil, List.flatten_nil,
+      List.append_nil]
+    exact base_step sVoid _ _ q.const q.volatile
   | basic q n =>
     simp only [createCompleteSourceType, spelled, baseOf, baseSpelling, levels, List.map_nil, List.flatten_nil,
       List.append_nil]
@@ -251,13 +248,13 @@ theorem complete_eq_spelled (t : CType) (p : Bool) (h : NoQualifiedVoid t) :
     cases q.const <;> cases q.volatile <;>
       simp only [List.nil_append, if_true, if_false, Bool.false_eq_true]
   | ptr q t ih =>
-    have ih' := ih false (by intro q' hq; exact h q' (by simpa only [baseOf] using hq))
+    have ih' := ih false
     simp only [createCompleteSourceType, spelled, baseOf, levels, List.map_append, List.map_cons, List.map_nil]
     rw [ih']
     unfold spelled levelSpelling
     exact level_step _ _ _ _ q.const q.volatile
   | array q t n ih =>
-    have ih' := ih false (by intro q' hq; exact h q' (by simpa only [baseOf] using hq))
+    have ih' := ih false
     cases p with
     | false =>
       simp only [createCompleteSourceType, spelled, baseOf, levels]
